@@ -1722,3 +1722,91 @@ func constArgAtCallers(p *core.Program, fn *ssa.Function, v ssa.Value) ([]string
 	sort.Strings(out)
 	return out, true
 }
+
+// ruleWrapperInferTotal (C03 / C18): a one-element wrapper fails to infer only when its element does.
+func ruleWrapperInferTotal(c *Ctx, p *core.Program, rule string) {
+	c.R.Rule(rule, "the Infer of a wrapper column with a single inner column (Array, Nullable: Type() = Base.Sub(inner.Type())) returns an error only when the forwarded Infer of the inner column did (the error returned derives from that call's result): the wrapper is also an element of tuples, and ColTuple / ColNamed hand every element the type string of the whole tuple - a wrapper that rejects a type because its base is not its own makes every result bound as Tuple(..., Array(T), ...) fail on the header block")
+	cfg := p.Cfg.Name
+	n := 0
+	for _, ct := range columnTypes(p) {
+		tm := methodOf(p, ct, "Type")
+		inf := methodOf(p, ct, "Infer")
+		if tm == nil || inf == nil || tm.Blocks == nil || inf.Blocks == nil || len(inf.Params) < 2 {
+			continue
+		}
+		inner, sub := 0, false
+		for _, b := range tm.Blocks {
+			for _, in := range b.Instrs {
+				cl, ok := in.(ssa.CallInstruction)
+				if !ok {
+					continue
+				}
+				cc := cl.Common()
+				if cc.IsInvoke() && cc.Method.Name() == "Type" {
+					if loopHeaderOf(b) != nil {
+						inner += 2
+					} else {
+						inner++
+					}
+				}
+				if f := core.CalleeFunc(cl); f != nil && core.IsMethod(f, core.PkgProto, "ColumnType", "Sub") {
+					sub = true
+				}
+			}
+		}
+		if !sub || inner != 1 {
+			continue
+		}
+		n++
+		key := ct.Obj().Name() + ".Infer"
+		// error results of forwarded Infer calls (in Infer itself or a helper it hands the inner column to)
+		var errs []ssa.Value
+		for f := range core.StaticReach(inf, 1) {
+			if f.Blocks == nil || pkgOf(f) == nil || pkgOf(f).Path() != core.PkgProto {
+				continue
+			}
+			for _, call := range core.Calls(f) {
+				if cc := call.Common(); cc.IsInvoke() && cc.Method.Name() == "Infer" {
+					if v := call.Value(); v != nil {
+						errs = append(errs, v)
+					}
+				}
+				if f != inf {
+					continue
+				}
+			}
+		}
+		bad := false
+		for _, b := range inf.Blocks {
+			for _, in := range b.Instrs {
+				r, ok := in.(*ssa.Return)
+				if !ok || len(r.Results) != 1 || core.IsNilConst(r.Results[0]) {
+					continue
+				}
+				okSrc := core.DependsOn(r.Results[0], func(x ssa.Value) bool {
+					for _, e := range errs {
+						if x == e {
+							return true
+						}
+					}
+					// the result of a proto helper that forwards (inferData(v, t))
+					if cl, isC := x.(*ssa.Call); isC {
+						if g := core.StaticFn(cl); g != nil && g.Blocks != nil && pkgOf(g) != nil && pkgOf(g).Path() == core.PkgProto && len(core.ForwardedInvokes(g, "Infer")) > 0 {
+							return true
+						}
+					}
+					return false
+				}, true)
+				if !okSrc {
+					bad = true
+					c.R.Bad(rule, key, cfg, p.Pos(r.Pos()), ct.Obj().Name()+".Infer can fail on its own account (not with the inner column's error): as an element of a tuple it is handed the tuple's type string and must tolerate it")
+				}
+			}
+		}
+		if !bad {
+			c.R.Ok(rule, key, cfg, p.Pos(inf.Pos()), "fails only with the inner column's error")
+		}
+	}
+	c.R.Count("single-inner wrapper columns", n)
+	c.R.Floor(rule, cfg, n, 1)
+}
